@@ -63,6 +63,7 @@ SubstOK(e) ==
   /\ Clean(e.built) /\ Has(e.built, "ok")
   /\ Clean(e.res)
   /\ IF IsOk(r) THEN e.res = r /\ Eval(e.built.ok, NoEnv) = r
+     ELSE IF r.err = "Unspecified" THEN TRUE
      ELSE Has(e.res, "err") /\ e.res.err \in ErrSet(e.e, SubstEnv(e))
 
 EventOK(e) ==
